@@ -217,6 +217,13 @@ func MetaSection(t *rapid.T) ([]byte, MetaExpect) {
 				bad("chunk length disagrees with content")
 				label("length-off")
 			}
+		case 2:
+			// far too small: shorter than the identifier itself can be
+			if d := rapid.IntRange(0, 3).Draw(t, "len.tiny"); d != declared {
+				declared = d
+				bad("chunk length disagrees with content")
+				label("length-tiny")
+			}
 		case 1:
 			// far too large, incl. values that equal the true length modulo 2^16 / 2^24
 			declared = rapid.SampledFrom([]int{1 << 14, 1<<30 - 1, 1 << 20, len(body) + 1<<16, len(body) + 1<<24, len(body) + 3<<16, len(body) + 1<<29}).Draw(t, "len.huge")
